@@ -2,12 +2,13 @@ package main
 
 import (
 	"encoding/json"
+	"fmt"
 	"io"
 	"log"
-	"fmt"
 	"os"
 	"sort"
 	"strconv"
+	"time"
 
 	"verif/checks"
 	"verif/internal/ev"
@@ -60,6 +61,11 @@ func main() {
 		bud := ch.QuickBud
 		if tier == "thorough" {
 			bud = ch.ThorBud
+		}
+		// development aid (not used by any registered command): cap the exploration budget, e.g. to smoke-test the
+		// thorough configurations of many checks in a short time
+		if v, err := strconv.Atoi(os.Getenv("VERIF_BUDGET_SEC")); err == nil && v > 0 && time.Duration(v)*time.Second < bud {
+			bud = time.Duration(v) * time.Second
 		}
 		c := ev.NewCtx(id, tier, seed, bud)
 		ch.Run(c)
